@@ -40,12 +40,12 @@ func c27ConfigContents() map[string][][]byte {
 		"Br":  {c27ConfigYAML("4s", 400, "RedisPeerManagement:\n  Database: 1\n")},
 		"Brw": {c27ConfigYAML("5s", 500, "RedisPeerManagement:\n  Prefix: foo\n")},
 		"X": {
-			c27ConfigYAML("6s", 600, "NoSuchGroup:\n  Foo: 1\n"),     // unknown group
-			c27ConfigYAML("6s", 600, "  NoSuchField: 1\n"),           // unknown field in Traces
-			c27ConfigYAML("bogus", 600, ""),                          // wrong type
-			c27ConfigYAML("6s", 7, ""),                               // below the minimum
+			c27ConfigYAML("6s", 600, "NoSuchGroup:\n  Foo: 1\n"),       // unknown group
+			c27ConfigYAML("6s", 600, "  NoSuchField: 1\n"),             // unknown field in Traces
+			c27ConfigYAML("bogus", 600, ""),                            // wrong type
+			c27ConfigYAML("6s", 7, ""),                                 // below the minimum
 			append(c27ConfigYAML("6s", 600, ""), "  Broken: [1,\n"...), // not YAML
-			{},                                                       // empty file
+			{}, // empty file
 		},
 	}
 }
